@@ -150,7 +150,7 @@ func runHistSerialBody(r *Run) {
 	var trace []string
 	for k := 0; k < nops && !r.failed(); k++ {
 		what := fmt.Sprintf("op #%d", k)
-		kind := c.Pick("sop", 2, 5, 5, 2, 1)
+		kind := c.Pick("sop", 2, 5, 5, 2, 2)
 		if len(blobs) == 0 && (kind == 2 || kind == 4) {
 			kind = 1
 		}
@@ -160,9 +160,19 @@ func runHistSerialBody(r *Run) {
 			bl := blobs[c.Intn("blob", len(blobs))]
 			dstObj := objs[c.Intn("dstobj", len(objs))]
 			bad := append([]byte(nil), bl.b...)
-			if f, err := parseFraming(bad); err == nil && f.sec[3].typeOff >= 0 && f.sec[2].typeOff >= 0 && c.Intn("badkind", 3) != 0 {
-				bad[f.sec[2+c.Intn("badsec", 2)].typeOff] = 9
-			} else {
+			f, ferr := parseFraming(bad)
+			switch bk := c.Intn("badkind", 5); {
+			case ferr == nil && bk <= 1 && f.sec[3].typeOff >= 0 && f.sec[2].typeOff >= 0:
+				bad[f.sec[2+c.Intn("badsec", 2)].typeOff] = 9 // unknown block type
+			case ferr == nil && bk <= 3:
+				// a byte inside a block's payload: a compressed block then fails half way through its decoder
+				sec := 1 + c.Intn("badpaysec", 3)
+				if f.sec[sec].typeOff >= 0 && f.sec[sec].payLen > 0 {
+					bad[f.sec[sec].payOff+c.Intn("badpaypos", f.sec[sec].payLen)] ^= byte(1 + c.Intn("badpaybit", 255))
+				} else {
+					bad[len(bad)-1] ^= 0x55
+				}
+			default:
 				bad[len(bad)-1] ^= 0x55
 			}
 			var derr error
